@@ -149,6 +149,65 @@ def reuse_witness(args):
                        f"t = {st!r}; print(f(t, strand_break={brk!r}), t, f(t, strand_break={brk!r}))"}
 
 
+OWNED_EDITS = ["append", "break", "reverse", "pop", "setitem", "clear", "drop", "rotate", "new"]
+
+
+def owned_requests(ctx):
+    """tables the caller got from make_strand_table and edits in place: [form, sequence, break, edits] (the conversion is a
+    function of the sequence: an equal sequence converted later gives the cut of the sequence, whatever a caller did to
+    the table of an earlier conversion)"""
+    rng = ctx.rng
+    quick = ctx.tier == "quick"
+    out = []
+    # small scope: every sequence over a b + up to length 4, as string and as list, one or two edits
+    for s in gs.all_strings("ab+", 4 if quick else 6):
+        for form in ("str", "list"):
+            eds = [[rng.choice(OWNED_EDITS), rng.randrange(6)] for _ in range(rng.choice([1, 1, 2]))]
+            out.append([form, list(s), "+", eds])
+    # nucleotide strings / domain lists, other break markers (equal to, not identical with, anything in the library),
+    # long strands, several edits
+    names = ["a", "b*", "+", "&", "long_name-1", "c"]
+    for _ in range(500 if quick else 6000):
+        brk = rng.choice(["+", "+", "&", "\u2192", "_", "\U0001F9EC"])
+        form = rng.choice(["str", "str", "list"])
+        el = ["A", "C", "G", "T", "N"] if form == "str" or rng.random() < 0.3 else names
+        sq = []
+        for k in range(rng.choice([1, 2, 2, 3, 5])):
+            sq += ([brk] if k else []) + [rng.choice(el) for _ in range(rng.choice([0, 1, 2, 4, 9, 40]))]
+        eds = [[rng.choice(OWNED_EDITS), rng.randrange(50)] for _ in range(rng.randrange(1, 5))]
+        out.append([form, sq, brk, eds])
+    return out
+
+
+def owned_witness(args):
+    """failing input from a request [form, sequence, break, edits] on which the direct statement fails (shrunk)"""
+    def fault(a):
+        r = run_impl([("strand_table_owned_fault", a)], jobs=1)[0]
+        return "error" if isinstance(r, Err) else None if not r else "shared" if "the same strand object" in r else "value"
+    kind = fault(args)
+
+    def bad(a):                     # shrinking keeps the kind of fault (a wrong value stays a wrong value)
+        return fault(a) == kind
+
+    def smaller(a):
+        form, sq, brk, eds = a
+        for k in range(len(eds)):
+            yield [form, sq, brk, eds[:k] + eds[k + 1:]]
+        for k in range(len(sq)):
+            yield [form, sq[:k] + sq[k + 1:], brk, eds]
+    if kind is None:
+        return None
+    form, sq, brk, eds = shrink(args, bad, smaller, budget=40)
+    r = run_impl([("strand_table_owned_fault", [form, sq, brk, eds])], jobs=1)[0]
+    given = "".join(sq) if form == "str" else sq
+    return {"key": {"strand_table_owned": [form, sq, brk, eds]}, "input": {"strand_table_owned": [form, sq, brk, eds]},
+            "what": f"table handed out by make_strand_table edited by the caller ({eds!r}), equal sequence converted again: {r}",
+            "snippet": "from dsdobjects.complex_utils import make_strand_table as f; "
+                       f"s = {given!r}; t = f(s, strand_break={brk!r}); print(t); "
+                       f"# edit t in place: {eds!r} (harness op strand_table_owned_fault, harness/impl/cu.py); "
+                       f"print(f(s, strand_break={brk!r}))"}
+
+
 def inverse_requests(ctx, tables):
     """pair_table_to_dot_bracket on tables the implementation produced, plus damaged ones"""
     rng = ctx.rng
@@ -222,6 +281,24 @@ def run(ctx):
         direct_odd = bad_odd
     else:
         direct_odd = []
+    # tables make_strand_table handed out, edited in place by the caller; an equal sequence converted again (direct
+    # statement on the implementation: conversions are independent of each other)
+    owned_bad = []
+    if runner.ok:
+        ow = owned_requests(ctx)
+        faulty = [(a, r) for a, r in zip(ow, run_impl([("strand_table_owned_fault", a) for a in ow])) if r or isinstance(r, Err)]
+        ctx.cov["correspondence"]["make_strand_table/edited-table-then-again(impl)"] = {"cases": len(ow), "failures": len(faulty)}
+        # wrong values before shared objects, sequences without empty strands first, short ones first
+        faulty.sort(key=lambda ar: (isinstance(ar[1], Err) or "the same strand object" in ar[1],
+                                    ar[0][0] == "str" and not all("".join(ar[0][1]).split(ar[0][2])), len(json.dumps(ar[0]))))
+        for a, _r in faulty[:3]:
+            w = owned_witness(a)
+            if w:
+                owned_bad.append(w)
+        if owned_bad and res["ok"] and not diffs:
+            for f in owned_bad[:10]:
+                ctx.violation("counterexample", f)
+            return
     ctx.cov["rule"] = ("every string over '().+x' up to the tier's length bound, random long/deep/many-stranded "
                        "structures and single-fault mutations of them, other break/ignore characters; "
                        "non-trivial = distinct results on which model and implementation agree")
@@ -277,7 +354,7 @@ def run(ctx):
                 w = reuse_witness(a_)
                 if w:
                     rw.append(w)
-        pre = pre + stf + rw
+        pre = pre + stf + rw + owned_bad
         # then the small-scope enumerator and the random stream against the oracle
         cases += [{"s": s, "brk": "+"} for s in strs] + [{"s": s, "brk": "+"} for s in rnd[:2000]]
         out = run_oracle("c06.py", {"cases": cases})
@@ -304,6 +381,10 @@ def replay(data):
         return 0 if (isinstance(r, Err) and r.kind == "SecondaryStructureError") else 1
     if isinstance(inp, dict) and "strand_table_reuse" in inp:
         r = run_impl([("strand_table_reuse_fault", inp["strand_table_reuse"])], jobs=1)[0]
+        print(r)
+        return 1 if (r or isinstance(r, Err)) else 0
+    if isinstance(inp, dict) and "strand_table_owned" in inp:
+        r = run_impl([("strand_table_owned_fault", inp["strand_table_owned"])], jobs=1)[0]
         print(r)
         return 1 if (r or isinstance(r, Err)) else 0
     if isinstance(inp, dict) and "history" in inp:
